@@ -10,6 +10,8 @@
    custom-code error, on all three HEAD carriers and two body carriers even in the quick tier).
    It also includes custom codes that are case variants of tabled codes, and listings whose
    backend iterator yields 1-2 items and THEN the error (page sizes 1, 2 and the default).
+   Size classes: messages of 1900..6000 bytes and details listing 1..90 digests (error bodies below
+   and above net/http's 2048-byte buffer, up to just below the client's 8 KiB limit) on every carrier.
    The thorough tier adds seeded-random trees (nested wrappers, several joined codes, random
    statuses 400..599, random messages and JSON details) over all 18 carriers.
 3. TLC validates every recorded case against OciErrorTrace.
@@ -178,11 +180,13 @@ def run(ctx):
                 cases.append(dict(id=len(cases), carrier=c, hops=HOPS, err=g['err'], nitems=g['nitems'], page=g['page']))
             continue
         if g['kind'] == 'HEAD':
-            lst = HEAD if (not quick or g.get('sweep')) else [HEAD[nh % 3]]
+            lst = HEAD if (not quick or g.get('sweep') or g.get('size')) else [HEAD[nh % 3]]
             nh += 1
         else:
             lst = BODY if not quick else [BODY[(nb + nb // 15) % 15]]
-            if quick and g.get('sweep'):
+            if g.get('size'):
+                lst = BODY          # size classes (bodies below/above 2 KiB, up to ~7 KiB): every carrier, also in quick
+            elif quick and g.get('sweep'):
                 # status sweep (every own status 400..599): two body carriers besides the three HEAD ones
                 lst = [BODY[(2 * nsweep) % 15], BODY[(2 * nsweep + 1) % 15]]
                 nsweep += 1
